@@ -465,7 +465,10 @@ def run(tier):
         gf_ = cu.guard_facts(fn)
 
         def mentions_fld(x, fld=fld):
-            return any(n.get("k") == "mem" and n.get("f") == fld for n in walk(x))
+            # a test that the requirement is set (`fld == 1`, `fld != 0`, bare truth); `fld == 0` is another question
+            if not any(n.get("k") == "mem" and n.get("f") == fld for n in walk(x)):
+                return False
+            return any(tr_ and (tx_.endswith(fld + " == 1)") or tx_.endswith(fld)) for (tx_, tr_, nd_) in cu._cond_atoms(x, True))
 
         def tgt(x, fn=fn, gf_=gf_):
             for b in fn.blocks:
@@ -485,7 +488,10 @@ def run(tier):
             t = b.get("term")
             if t is None or "c" not in t:
                 continue
-            if any(n.get("k") == "mem" and n.get("f") == "require_extended_master_secret" for n in walk(t["c"])):
+            # the requirement test proper (`require... == 1` / bare truth), not the RFC 7627 5.3 ticket test `require... == 0`
+            if any(n.get("k") == "mem" and n.get("f") == "require_extended_master_secret" for n in walk(t["c"])) and \
+                    any(tr_ and (tx_.endswith("require_extended_master_secret == 1)") or tx_.endswith("require_extended_master_secret"))
+                        for (tx_, tr_, nd_) in cu._cond_atoms(t["c"], True)):
                 # the edge on which the requirement is violated: both conjuncts true -> last test's true edge
                 nxt = b["succ"][0].get("b")
                 last = b
@@ -511,6 +517,7 @@ def run(tier):
     rule_R6(res, prog)
     rule_R7(res, prog)
     rule_R8(res, prog)
+    rule_R9(res, prog)
     return res.finish()
 
 
@@ -694,3 +701,61 @@ def rule_R8(res, prog):
                                      "with a fragment length it never offered" % (fn.relfile, ln, pp(r)[:30]), file=fn.relfile, line=ln)
                     res.instance(rid, "ServerHelloExt:%s maxPtFrag = %s under the matching request bit" % (ln, pp(r)[:20]), ok, finding=f_)
     res.floor(rid, 4)
+
+
+def rule_R9(res, prog):
+    """'enabled by both endpoints (build and per-session options)': a per-session list the application supplied (TLS 1.3
+    groups, signature algorithms) is the enabled set; the library defaults are written only when that list is empty.  The
+    consumers (tls13WeSupportGroup, the extension writers) scan the whole array / up to the first 0, so defaults written
+    underneath a shorter user list stay enabled.  Every call of a default filler must therefore lie under a branch fact
+    that the list it fills is empty (its length, or its first element, is 0)."""
+    import re
+    from sa import cfgutil as cu
+    rid = "C07.R9"
+    res.rule(rid, "library default lists (groups, signature algorithms) are filled in only when the per-session option list is empty")
+    FILLERS = ("tls13GetDefaultGroups", "tls13GetDefaultSigAlgsCert", "getDefaultSigAlgs")
+    n = 0
+    for name in FILLERS:
+        lst = prog.by_name.get(name)
+        if not lst:
+            continue
+        callee = lst[0]
+        fields = set()
+        for b, ln, nd in callee.nodes():
+            if nd.get("k") == "bin" and nd["op"] in ("=", "+=") or nd.get("k") == "un" and nd.get("op") in ("++", "post++", "pre++"):
+                tgt = nd.get("l") if nd.get("k") == "bin" else nd.get("e")
+                for m in walk(tgt):
+                    if m.get("k") == "mem" and m.get("f"):
+                        fields.add(m["f"])
+        lens = set(f for f in fields if f.endswith("Len"))
+        arrays = set(f for f in fields if f + "Len" in lens)
+        if not lens or not arrays:
+            raise AnalysisBroken("C07.R9: %s no longer writes an array and its length" % name)
+        for fn in sorted(prog.functions.values(), key=lambda f: f.qname):
+            if not fn.blocks or fn is callee:
+                continue
+            gf = None
+            for b, ln, call in fn.calls():
+                if call.get("fn") != name:
+                    continue
+                gf = gf or cu.guard_facts(fn)
+                bid = b if isinstance(b, int) else b["id"]
+                n += 1
+                ok = False
+                for (txt, tr) in gf.get(bid, ()):
+                    m = re.match(r"^\((.*) == 0\)$", txt)
+                    base, want = (m.group(1), True) if m else (txt, False)
+                    if tr != want:
+                        continue
+                    if any(re.search(r"->%s$" % L, base) for L in lens) or any(re.search(r"->%s\[0\]$" % A, base) for A in arrays):
+                        ok = True
+                f_ = None
+                if not ok:
+                    f_ = Finding(PROP, rid, fn.name, "defaults written although the application supplied a list",
+                                 "%s:%s %s(): %s() (writes %s) is called without a branch fact that the list is empty (%s == 0 or "
+                                 "%s[0] == 0): with a shorter application list the default entries beyond it stay in the array, and the "
+                                 "membership tests / extension writers that scan the whole array treat them as enabled" % (
+                                     fn.relfile, ln, fn.name, name, sorted(arrays), sorted(lens)[0], sorted(arrays)[0]),
+                                 file=fn.relfile, line=ln)
+                res.instance(rid, "%s:%s %s() only when %s is empty" % (fn.name, ln, name, sorted(arrays)[0]), ok, finding=f_)
+    res.floor(rid, 2)
